@@ -357,8 +357,14 @@ Definition wstep (g : Z) (w : wst) (e : wev) : wst :=
         if term_is_graceful then w_set w false (w_mode w) (w_conn w) (w_need w) (w_clk w) tm
         else w_set w false Gone (lose (w_conn w)) (w_need w) (w_clk w) tm
     | WQuit =>
-        (* handle_quit: alive = False; sleep(quit_sleep); sys.exit(0).  What was in flight is not waited for. *)
-        w_set w false Gone (lose (w_conn w)) (w_need w) (w_clk w) (w_term w)
+        (* handle_quit: alive = False; sleep(quit_sleep); sys.exit(0).  What was in flight is not waited for - except
+           by gthread: its handle_quit calls tpool.shutdown(False) and sys.exit(0) in the main thread, and the
+           interpreter's shutdown joins the pool threads (observed on real processes): requests in a thread go on *)
+        match w_cls w with
+        | GThread => w_set w false Leaving (if in_handler GThread (w_conn w) then w_conn w else lose (w_conn w))
+                           (w_need w) (w_clk w) (w_term w)
+        | _ => w_set w false Gone (lose (w_conn w)) (w_need w) (w_clk w) (w_term w)
+        end
     | WKill => w_set w (w_alive w) Gone (lose (w_conn w)) (w_need w) (w_clk w) (w_term w)
     | WTick dt =>
         if dt <? 0 then w else
@@ -422,18 +428,21 @@ Definition wstep (g : Z) (w : wst) (e : wev) : wst :=
 
 Definition wrun (g : Z) (w : wst) (es : list wev) : wst := fold_left (wstep g) es w.
 
-(* A schedule is admissible for a graceful stop when no QUIT arrives and a KILL arrives only once the master's
-   limit has passed (Proof/ShutdownMaster.v kill_not_before_limit proves that this is what the master does). *)
-Fixpoint admissible (g : Z) (w : wst) (es : list wev) : Prop :=
+(* A schedule is admissible for a graceful stop whose limit is dl (the master's `limit`: the wall clock at the start of
+   stop() plus graceful_timeout) when no QUIT arrives, TERM is handled no earlier than the stop began (dl <= now + g),
+   SIGKILL arrives only once the limit has passed (Proof/ShutdownMaster.v kill_not_before_limit proves that this is what
+   the master does), and the client of a half-received head is not cut by the async workers' read timeout. *)
+Fixpoint admissible (g dl : Z) (w : wst) (es : list wev) : Prop :=
   match es with
   | [] => True
   | e :: t =>
       (match e with
        | WQuit => False
-       | WKill => match w_term w with Some t0 => t0 + g <= w_clk w | None => False end
-       | WIdleTimeout => True
+       | WKill => dl <= w_clk w
+       | WTerm => dl <= w_clk w + g
+       | WIdleTimeout => w_conn w <> CHead
        | _ => True
-       end) /\ admissible g (wstep g w e) t
+       end) /\ admissible g dl (wstep g w e) t
   end.
 
 Definition w_init (cl : wclass) (ph : cphase) (need keep clk : Z) : wst := mkW cl true Serving ph need clk None keep.
